@@ -312,7 +312,7 @@ class HaplotagPart(Base):
 class ToolsPart(Base):
     """stats / compare / unphase / split / haplotagphase on generated files"""
     name = "tools"
-    budget = {"quick": 48, "thorough": 400}
+    budget = {"quick": 96, "thorough": 800}
     nruns = 2
 
     def gen(self, draw):
@@ -330,6 +330,9 @@ class ToolsPart(Base):
         elif tool == "split":
             from props.c14_split import gen_case
             c["split"] = gen_case(draw)
+            # the list written below always has four columns, so --only-largest-block (ties between phase sets of a
+            # chromosome are frequent in these lists) can be drawn freely
+            c["split"]["opts"]["only_largest"] = draw(st.booleans())
         elif tool == "find_snv_candidates":
             g = P.gen_case(draw, nsamples=(1, 1), ncontigs=(1, 2), length=(300, 600), depth=(4, 10), read_len=(60, 250), paired_share=10,
                            clip_share=0, eqx_share=0, kinds=("snv",))
@@ -388,8 +391,10 @@ class ToolsPart(Base):
             with open(lp, "w") as f:
                 for n, hap, ps, chrom in c["entries"]:
                     f.write("%s\t%s\t%d\t%s\n" % (n, hap if hap in ("none", "H1", "H2") else "H1", ps, chrom))
+            extra = [flag for key, flag in (("only_largest", "--only-largest-block"), ("discard_unknown", "--discard-unknown-reads"),
+                                            ("add_untagged", "--add-untagged")) if c["opts"].get(key)]
             return ["split", "--output-h1", "{out}/h1." + ext, "--output-h2", "{out}/h2." + ext, "--output-untagged", "{out}/u." + ext,
-                    "--read-lengths-histogram", "{out}/hist.tsv", rp, lp], ["h1." + ext, "h2." + ext, "u." + ext, "hist.tsv"]
+                    "--read-lengths-histogram", "{out}/hist.tsv"] + extra + [rp, lp], ["h1." + ext, "h2." + ext, "u." + ext, "hist.tsv"]
         # haplotagphase: tag in-process first (deterministic input for the tool under test)
         from props.c10_haplotag import write_phased_vcf, run_tool
         c = case["htp"]
